@@ -370,14 +370,17 @@ AR_VALS = [0, 1]
 def ar_ops(cap):
     return [{"op": "sset", "i": i, "v": v} for i in range(cap) for v in AR_VALS] + [{"op": "sfill", "i": 0, "v": v} for v in AR_VALS] + \
            [{"op": o, "i": 0, "v": 0} for o in ("sclear", "dclear", "bclear", "dappend")] + \
-           [{"op": o, "i": 0, "v": v} for o in ("demplace", "dpush", "bemplace") for v in AR_VALS]
+           [{"op": o, "i": 0, "v": v} for o in ("demplace", "dpush", "bemplace", "dchaina") for v in AR_VALS] + \
+           [{"op": "dchain", "i": w, "v": v} for v in AR_VALS for w in AR_VALS]
 
 
 def ar_line(o):
     if o["op"] == "sset":
         return "ar sset %d %d" % (o["i"], o["v"])
-    if o["op"] in ("sfill", "demplace", "dpush", "bemplace"):
+    if o["op"] in ("sfill", "demplace", "dpush", "bemplace", "dchaina"):
         return "ar %s %d" % (o["op"], o["v"])
+    if o["op"] == "dchain":
+        return "ar dchain %d %d" % (o["v"], o["i"])
     return "ar " + o["op"]
 
 
@@ -409,10 +412,18 @@ def ar_random_script(cap, rng, nops):
             if cnt + bcnt <= cap:
                 lines.append("ar dappend")
                 cnt += bcnt
-        elif c < 0.30:
+        elif c < 0.26:
             if cnt < cap:
                 lines.append("ar %s %d" % (rng.choice(["dpush", "dpushm"]), rng.randrange(1000)))
                 cnt += 1
+        elif c < 0.28:
+            if cnt + 2 <= cap:
+                lines.append("ar dchain %d %d" % (rng.randrange(1000), rng.randrange(1000)))
+                cnt += 2
+        elif c < 0.30:
+            if cnt + 1 + bcnt <= cap:
+                lines.append("ar dchaina %d" % rng.randrange(1000))
+                cnt += 1 + bcnt
         elif c < 0.45:
             lines.append("ar sset %d %d" % (rng.randrange(cap), rng.randrange(1000)))
         elif c < 0.55:
